@@ -414,7 +414,7 @@ func Scenarios(tier string) []run.Scenario {
 	var out []run.Scenario
 	depth := 5
 	if tier == "thorough" {
-		depth = 6
+		depth = 7
 	}
 	for _, before := range []bool{false, true} {
 		b := before
